@@ -378,7 +378,9 @@ def run(ctx):
     # ---- the checkpoint is cut after every loop-carried write
     g = CFG(sample.node)
     lcfg = g.loop_of(loop_node)
-    cps = [n for n in lcfg["body"] for c in calls_in(n.ast) if isinstance(c.func, ast.Name) and "checkpoint" in c.func.id]
+    from .smcloop import checkpoint_closure
+    _mc = checkpoint_closure(repo)
+    cps = [n for n in lcfg["body"] for c in calls_in(n.ast) if isinstance(c.func, ast.Name) and _mc is not None and c.func.id == _mc.name]
     if len(cps) != 1:
         ctx.unknown("C11.cut", sample.ident, loc_of(sample, loop_node), f"expected one checkpoint call in the loop body, found {len(cps)}")
     else:
